@@ -11,6 +11,7 @@ import (
 	"github.com/bluenviron/gomavlib/v3"
 
 	"verif/dsim"
+	"verif/hd"
 	"verif/world"
 )
 
@@ -50,6 +51,7 @@ type session struct {
 	readK  int
 	link   *link
 	chOpen time.Duration
+	noRead bool // the peer does not read during this session
 }
 
 func isTimeout(err error) bool {
@@ -83,11 +85,20 @@ func c14Body() func(h []dsim.Rec) {
 		dialTO = 10 * time.Second
 	}
 
+	// outgoing traffic against peers that do not drain it: the channel's writer ends up blocked
+	// in the transport when the read side fails
+	traffic := kind != epUDPServer && kind != epUDPClient && dsim.Choose(2) == 1
+	if traffic {
+		e.w.SendBuf = 300
+		e.w.ChunkMode = 0
+		count("cov:outgoing-traffic")
+	}
 	// ---- plan
 	ns := 2 + dsim.Choose(4)
 	var sessions []*session
 	for i := 0; i < ns; i++ {
 		s := &session{frames: dsim.Choose(6), readK: 1 + dsim.Choose(5)}
+		s.noRead = traffic && dsim.Choose(2) == 1
 		if clientType {
 			s.fails = dsim.Choose(3)
 			if dsim.Choose(4) == 3 {
@@ -188,6 +199,10 @@ func c14Body() func(h []dsim.Rec) {
 		}
 		s := sessions[k]
 		s.link = l
+		if s.noRead && s.ending != endStay {
+			l.pauseRx(true)
+			count("fault:peer-not-reading")
+		}
 		d.spawn("session", func() {
 			if s.ending == endIdle && dsim.Choose(2) == 0 && s.frames > 0 {
 				// keep-alive first: a peer that sends every 0.9 idle periods stays open
@@ -261,6 +276,20 @@ func c14Body() func(h []dsim.Rec) {
 		return nil
 	}
 	dsim.Go("consumer", cons.run)
+	if traffic && cfg.hasDialect() {
+		dsim.Go("traffic", func() {
+			for {
+				e.mu.Lock()
+				stop := e.stopAll
+				e.mu.Unlock()
+				if stop {
+					return
+				}
+				e.node.WriteMessageAll(&hd.MessageVerifBig{Data: [255]uint8{0: 7, 254: 7}}) //nolint
+				dsim.Sleep(250 * time.Millisecond)
+			}
+		})
+	}
 	if !clientType {
 		// server endpoints: peers arrive one after the other, later ones after earlier ones failed
 		d.spawn("arrivals", func() {
